@@ -173,7 +173,33 @@ func (c *c14) Plan(seed uint64, tier string, worker, workers, idx int) *Plan {
 		// one task: exact expectations
 		var ops []Op
 		ops = battery(ops, r.Range(1, 4), false)
+		trapAt, trapV := -1, r.Intn(4)
+		if r.Chance(1, 5) {
+			trapAt = r.Intn(nExt)
+		}
+		poison := func(ops []Op) []Op {
+			in := inputs.Input{Fam: "poison", V: trapV, N: r.Range(0, 40)}
+			op := Op{Kind: []string{"detect", "detect", "reader", "file"}[r.Intn(4)], In: &in}
+			if op.Kind != "detect" {
+				op.Del = randDelivery(r, len(in.Bytes()), 0)
+			}
+			return append(ops, op)
+		}
 		for i := 0; i < nExt; i++ {
+			if i == trapAt {
+				// a detector with a bug: it panics on some inputs; the caller recovers and carries on
+				p.Traps = true
+				t := g.trap(trapV)
+				if g.pendingTrapParent != nil {
+					ops = append(ops, Op{Kind: "extend", Ext: g.pendingTrapParent})
+					g.pendingTrapParent = nil
+				}
+				ops = append(ops, Op{Kind: "extend", Ext: t})
+				ops = poison(ops)
+			}
+			if p.Traps && r.Chance(1, 2) {
+				ops = poison(ops)
+			}
 			e := g.ext()
 			ops = append(ops, Op{Kind: "extend", Ext: e})
 			if r.Chance(1, 6) {
@@ -246,6 +272,19 @@ func (c *c14) Check(rr *RunResult, st *Stats) []Failure {
 			states := statesDuring(evs, init, 0, ti, oi, inv, ret)
 			if ti != 0 && op.Kind == "setlimit" {
 				fs = append(fs, Failure{"harness", "C14 plans keep every writer in task 0"})
+			}
+			if res.Panicked && !rr.Plan.Unjudged(op) {
+				fs = append(fs, Failure{"panic", describe(ti, oi, op) + ": a detector panic came out of an operation that cannot reach the panicking detector"})
+				continue
+			}
+			if rr.Plan.Unjudged(op) {
+				// a poison input while a trap detector is registered: what this call returns is
+				// not stated; that every other operation is unaffected is
+				st.Probe("poison_detection_unjudged")
+				if res.Panicked {
+					st.Probe("detector_panic_recovered_by_caller")
+				}
+				continue
 			}
 			switch op.Kind {
 			case "detect", "reader", "file":
